@@ -449,15 +449,18 @@ type longT struct {
 	M  map[int32]int32    `thrift:"5"`
 	Z  map[int64]struct{} `thrift:"6"`
 	I8 []int8             `thrift:"7"`
+	St string             `thrift:"8"`
+	By []byte             `thrift:"9"`
 }
 
 func runLong(c *core.Case) {
 	c.Journal("long-collections")
 	var v longT
-	field := c.Index % 7
-	// element sizes: int64 8, string 16, bool 1, struct 1, map entry 8+8, set 8+8, int8 1
-	cap64k := []int{8192, 4096, 65536, 65536, 4096, 4096, 65536}[field]
-	n := []int{cap64k - 1, cap64k, cap64k + 1, cap64k + cap64k/3, 2*cap64k + 1, 3 * cap64k}[(c.Index/7)%6]
+	field := c.Index % 9
+	// element sizes: int64 8, string 16, bool 1, struct 1, map entry 8+8, set 8+8, int8 1; strings
+	// and binary values are read in chunks of 64 KiB that double
+	cap64k := []int{8192, 4096, 65536, 65536, 4096, 4096, 65536, 65536, 65536}[field]
+	n := []int{cap64k - 1, cap64k, cap64k + 1, cap64k + cap64k/3, 2*cap64k + 1, 3 * cap64k, 4*cap64k + 1, 9 * cap64k}[(c.Index/9)%8]
 	switch field {
 	case 0:
 		v.I = make([]int64, n)
@@ -489,10 +492,21 @@ func runLong(c *core.Case) {
 		for i := 0; i < n; i++ {
 			v.Z[int64(i)*3] = struct{}{}
 		}
-	default:
+	case 6:
 		v.I8 = make([]int8, n)
 		for i := range v.I8 {
 			v.I8[i] = int8(i * 7)
+		}
+	case 7:
+		b := make([]byte, n)
+		for i := range b {
+			b[i] = 'a' + byte((i/3+i/65536)%26)
+		}
+		v.St = string(b)
+	default:
+		v.By = make([]byte, n)
+		for i := range v.By {
+			v.By[i] = byte(i*7+i/65536) | 1
 		}
 	}
 	val := reflect.ValueOf(&v).Elem()
@@ -508,12 +522,12 @@ func runLong(c *core.Case) {
 func init() {
 	core.Register(&core.Monitor{
 		Prop:    "C04",
-		Rule:    "generated: struct types built at run time (0-70 fields; ids consecutive, with gaps inside and beyond the delta short form, ranges beyond 64 and 128, up to 32767, declared in any order; required/optional/enum; bool, int8..int64, int, float32/64, string, []byte, pointers to scalars, nested and pointer-to structs, lists, sets (also of named zero-size element types), maps, unions; occasionally a bare list/map/scalar at the top level) x 3 values (required pointers non-nil, no nil collection elements, no NaN keys) x {binary strict, binary non-strict, compact}, by value and through a pointer: Marshal must not fail, Unmarshal of the result must not fail and must be equal (nil == empty collections, floats by == or both NaN, unions through the member pointer). library: declared types with embedded structs by value and by pointer, recursion, pointer-to-pointer fields, bools in nested/pointer/list positions, unions nested in structs/lists/pointers, ids at 64/65/128/129/32767. long-collections: lists, sets and maps with as many elements as the decoder preallocates (64 KiB worth), one less, one more, 4/3, 2x+1 and 3x as many. reuse: one Encoder and one Decoder carried through 2-6 Reset calls across protocols (strict on/off), several values per stream: bytes equal to a fresh Marshal and values equal. Differences are classified by protocol and by the shape of the first differing field.",
+		Rule:    "generated: struct types built at run time (0-70 fields; ids consecutive, with gaps inside and beyond the delta short form, ranges beyond 64 and 128, up to 32767, declared in any order; required/optional/enum; bool, int8..int64, int, float32/64, string, []byte, pointers to scalars, nested and pointer-to structs, lists, sets (also of named zero-size element types), maps, unions; occasionally a bare list/map/scalar at the top level) x 3 values (required pointers non-nil, no nil collection elements, no NaN keys) x {binary strict, binary non-strict, compact}, by value and through a pointer: Marshal must not fail, Unmarshal of the result must not fail and must be equal (nil == empty collections, floats by == or both NaN, unions through the member pointer). library: declared types with embedded structs by value and by pointer, recursion, pointer-to-pointer fields, bools in nested/pointer/list positions, unions nested in structs/lists/pointers, ids at 64/65/128/129/32767. long-collections: lists, sets and maps with as many elements as the decoder preallocates (64 KiB worth), one less, one more, 4/3, 2x+1, 3x, 4x+1 and 9x as many; strings and binary values of those lengths around the 64 KiB read chunk, with content that differs from chunk to chunk. reuse: one Encoder and one Decoder carried through 2-6 Reset calls across protocols (strict on/off), several values per stream: bytes equal to a fresh Marshal and values equal. Differences are classified by protocol and by the shape of the first differing field.",
 		Trusted: []string{"harness/gen/ttypes.Equal (nil == empty, == on floats, union member through its pointer)", "reflect.StructOf-built types take the same codec construction path as declared ones"},
 		Subs: []core.Sub{
 			{Name: "generated", N: core.Const(15000, 600000), Run: runGenerated},
 			{Name: "library", N: core.Const(4000, 100000), Run: runLibrary},
-			{Name: "long-collections", N: core.Const(42, 420), Run: runLong},
+			{Name: "long-collections", N: core.Const(72, 720), Run: runLong},
 			{Name: "reuse", N: core.Const(3000, 100000), Run: runReuse},
 		},
 	})
